@@ -25,7 +25,8 @@ Contents == {<<>>} \cup {<<NoteSeq[i]>> : i \in 1..Len(NoteSeq)} \cup
             UNION {{<<NoteSeq[i], NoteSeq[j]>> : j \in {i + 3} \cap 1..Len(NoteSeq)} : i \in 1..Len(NoteSeq)} \cup
             {<<NoteSeq[i], NoteSeq[i + 2], NoteSeq[i + 4]>> : i \in {1, 3, 5}}
 DistinctPitches(s) == \A i, j \in 1..Len(s) : i # j => MidiPitch(s[i]) # MidiPitch(s[j])
-TrackNames == {<<85, 110, 116, 105, 116, 108, 101, 100>>, <<76, 101, 97, 100>>, <<66, 97, 115, 115, 32, 49>>}   \* "Untitled", "Lead", "Bass 1"
+TrackNames == {<<85, 110, 116, 105, 116, 108, 101, 100>>, <<76, 101, 97, 100>>, <<66, 97, 115, 115, 32, 49>>,
+               <<80, 97, 100, 32, 32>>, <<32, 79, 98, 111, 101>>}   \* "Untitled", "Lead", "Bass 1", "Pad  " (ends in blanks), " Oboe" (begins with one)
 Instrs == {[kind |-> "none", nr |-> 0], [kind |-> "midi", nr |-> 0], [kind |-> "midi", nr |-> 33], [kind |-> "midi", nr |-> 127], [kind |-> "piano", nr |-> 0]}
 BarLen(b) == MeterLength(b.meter[1], b.meter[2])
 BarTotal(b) == LET F(acc, e) == acc + e.t IN FoldLeft(F, 0, b.entries)
@@ -88,7 +89,9 @@ Pn(n, o) == <<[n |-> n, o |-> o, ch |-> 1, vel |-> 64]>>
 Titled(p, ti, au, su) == [bpm |-> p.bpm, repeat |-> p.repeat, tracks |-> p.tracks, title |-> ti, author |-> au, subtitle |-> su]
 Texts == {<<"Untitled", "", "">>, <<"A & B", "J. S. <Bach>", "op. \"1\"">>, <<"Tom's <tune> & more", "me & you", "x > y">>,
           \* characters outside ASCII are written {code point} on the specification side (the harness transliterates both ways)
-          <<"F{252}r Elise", "Anton{237}n Dvo{345}{225}k", "n{176} 1 {8212} {26376}">>}
+          <<"F{252}r Elise", "Anton{237}n Dvo{345}{225}k", "n{176} 1 {8212} {26376}">>,
+          \* text that reads like markup itself: a comment, a character data section end, a processing instruction, an entity
+          <<"Suite No. 1 -- Prelude", "<!-- anon -->", "a ]]> b">>, <<"<?xml x?> &amp; &#65;", "--", "-->">>}
 \* tracks in which a bar's content comes back (a repeated phrase; the same notes under another key or meter)
 BarOf(k, m, ents) == [key |-> k, meter |-> m, entries |-> ents]
 PhraseA == <<Ent(Q, Pn(<<"C">>, 4)), Ent(Q, Pn(<<"E">>, 4)), Ent(Q, <<>>), Ent(Q, Pn(<<"G">>, 4))>>
